@@ -219,7 +219,8 @@ def r2(R2, cfg, F):
     cb = F.body('asset::load_and_record::{closure#0}')
     if cb:
         ind = [c for c in cb.calls() if common.user_call_kind(c)]
-        R2.check(len(ind) == 1 and ind[0].dest['l'] == 0, cfg, cb.path, 'recorded-closure-is-the-load', 'the closure given to record must be exactly the load call', cb.loc())
+        # (the call may sit in a small accessor written in place: its result then reaches _0 through that accessor's return slot)
+        R2.check(len(ind) == 1 and (ind[0].dest['l'] == 0 or cb.origins(0) == {('call', ind[0].bb)}), cfg, cb.path, 'recorded-closure-is-the-load', 'the closure given to record must be exactly the load call', cb.loc())
     else:
         R2.missing(cfg, 'load_and_record::{closure#0}')
     # (b) the cached load registers from the on_insert callback
